@@ -31,7 +31,7 @@ func TestMain(m *testing.M) {
 		"live:PING/v4", "pong-verified", "findnode-served", "findnode-refused-unbonded", "unsolicited-reply-refused",
 		"expired:PING/v4", "expired:FINDNODE/v4", "class:truncate-every", "class:nested-resigned", "class:random-resigned",
 		// layer 2
-		"hs:ok", "hs:rejected", "delivered", "snappy:on", "snappy:off", "scenario:wrong-dial", "scenario:tamper-handshake",
+		"hs:ok", "payload-consumed-after-next-read", "hs:rejected", "delivered", "snappy:on", "snappy:off", "scenario:wrong-dial", "scenario:tamper-handshake",
 		"tamper:header", "tamper:header-mac", "tamper:frame", "tamper:frame-mac", "tamper-detected",
 		"tamper-kind:flip", "tamper-kind:drop", "tamper-kind:insert", "snappy-bomb",
 		"size:0", "size:<16", "size:16-17", "size:<=1KiB", "size:<=64KiB",
